@@ -58,6 +58,7 @@ def shared_attr(s, D):
          # a positional placeholder may land on an argument that carries an alias (format_args! counts every argument)
          "pos_after_alias": '"[{}]", v = _variant',
          # one bare placeholder that is not `_variant`: still only a default for variants without an attribute
+         "signed": '"{_variant:+}"', "alt": '"{:#}", _variant', "prec": '"[{v:.2}]", v = _variant',
          "bare_expr": '"{}", 7 + 1', "bare_field": f'"{f0}"', "bare_alias_expr": '"{n}", n = 7 + 1'}[s]
     return f"#[{a}({m})]\n" if m else ""
 
